@@ -1,7 +1,7 @@
 """C15 configuration for ./check (see lib/props.py)."""
 
 CFG = {
-    "modules": ["HumphreyModel.Props.C15"],
+    "modules": ["HumphreyModel.Props.C15", "HumphreyModel.Props.C15Config"],
     "rule": "configuration files rendered from a generating model (every key optional; 0..8 routes per host of every "
             "type with 1..3 comma-separated patterns, proxy target lists, balancer mode; 0..4 hosts; cache size in each "
             "unit up to the i64 boundary) with random indentation, separators, comments, blank lines, key order, CRLF and "
@@ -30,8 +30,16 @@ CFG = {
                   "unknown unit and a missing closing brace after any absorbed prefix of a file are rejected at exactly "
                   "that (file, line); conf_never_panics: no text, file name or file system makes the model of the "
                   "repaired parser panic; from_tree accepts only valid enum/number values (acceptance conditions) and "
-                  "rejects routes without target / with a bad balancer mode. load_render (configuration level, "
-                  "include splitting) is NOT proved: it is covered by the differential run and the generator's oracle.",
+                  "rejects routes without target / with a bad balancer mode. Props/C15Config.lean: parse_tree_roundtrip at "
+                  "TEXT level without the line-cleanliness hypothesis; load_render and load_config_roundtrip — for every "
+                  "well-formed generating model Cfg (every Config field, every route kind, hosts, optional keys) and "
+                  "every layout, Config::load of the rendered text is Cfg.normalise (omitted keys at the from_tree "
+                  "defaults, hosts and routes in file order), also through one level of includes and a blacklist "
+                  "file; fromTree_never_panics / load_never_panics; direct rejection theorems for each validated key "
+                  "(port, threads incl. 0, timeout, blacklist file/mode, log level/console, cache size/time, balancer "
+                  "mode, route without target) at whole-configuration level. Generating-model restrictions (fixed key "
+                  "order and spelling, includes one level deep, IPv4 blacklists) are listed in the file header; the "
+                  "differential run covers the rest.",
     "level_note": "Trusted: Lean kernel, Spec/Conf.lean, the harness. The theorems are about the model.",
     "timeout": {"quick": 600, "thorough": 6000},
 }
